@@ -483,6 +483,8 @@ func runC04(c *Ctx) {
 		R.Ob(c.siteKey(site, "dataResult is a fresh buffered channel"), c.P.InstrPos(site), describe(v) == "makechan(1)", "dataResult assigned "+describe(v))
 	}
 
+	R.Rule("R-sasl-decode", "E4", "a zero-length SASL response is handed to the mechanism as an empty (non-nil) slice: otherwise a spurious 334 is sent and the following command is swallowed as SASL data", 2)
+	ruleSASLDecode(c)
 	R.Rule("R-status-fill-shape", "E1", "in LMTP every accepted recipient occurrence gets a reply: fillRemaining loops a non-blocking send over every recipient channel until it is full", 2)
 	ruleFillShape(c)
 	ruleResetEffects(c)
